@@ -343,7 +343,8 @@ pub fn run(tier: Tier) -> Report {
     do_world("standard-closed", &closed_world(false, &TRS, 3), None, false);
     if tier.thorough() {
         do_world("sorenson-closed-5tr", &closed_world(true, &[0, 1, 2, 254, 255], 3), None, false);
-        do_world("sorenson-motion-depth5", &motion_world(crate::evidence::seed()), Some(5), true);
+        do_world("standard-closed-5tr", &closed_world(false, &[0, 1, 2, 254, 255], 3), None, false);
+        do_world("sorenson-motion-depth6", &motion_world(crate::evidence::seed()), Some(6), true);
     } else {
         do_world("sorenson-motion-depth3", &motion_world(crate::evidence::seed()), Some(3), true);
     }
